@@ -23,7 +23,7 @@ from harness.core import st
 from harness.oracles import exc_bucket, snapshot
 
 ID = "C15"
-RULE = ("all annotations of depth <= 2 over 46 leaves x 17 unary and 4 binary constructors (exhaustive) plus sampled depth-3 "
+RULE = ("all annotations of depth <= 2 over 52 leaves x 17 unary and 5 binary constructors (exhaustive) plus sampled depth-3 "
         "annotations; non-trivial = an extended constructor (Any, object, bare/unparameterised generic, TypeVar, Callable, "
         "type[..], user Generic, hint-less class) occurs below the root; distinct by annotation expression")
 ASSUMPTIONS = ["annotations that Python itself refuses to construct are skipped (counted)",
@@ -33,7 +33,7 @@ LEVEL_TEXT = ("Complete enumeration of the extended constructor grammar to depth
               "of all three routine kinds under a watchdog, a repeat after a cache hit and after clearing all caches, a behavioural "
               "battery, and identity checks for pass-through members; depth 3 sampled.")
 LEVEL_NOTE = "trusts the watchdog (20 s, typical build 2 ms) as the meaning of 'terminates'"
-EXHAUSTIVE_NOTE = "depth <= 2: 46 leaves, 17 unary x 46 + 4 binary x 46 x 46 annotations, complete on every run"
+EXHAUSTIVE_NOTE = "depth <= 2: 52 leaves, 17 unary x 52 + 5 binary x 52 x 52 annotations, complete on every run"
 
 MOD = "c15_types_mod"
 SRC = '''
@@ -68,6 +68,12 @@ class TD(TypedDict):
 class Sentinel:
     def __repr__(self):
         return "<sentinel>"
+# wrapped spellings of types that have no children in the type graph
+AL_NoHints = TypeAliasType("AL_NoHints", NoHints)
+AL_listAny = TypeAliasType("AL_listAny", list[Any])
+AL_Lit = TypeAliasType("AL_Lit", Literal[1, 'a'])
+TBN = TypeVar("TBN", bound=NoHints)
+NT_NoHints = NewType("NT_NoHints", NoHints)
 '''
 
 LEAVES = ["int", "str", "float", "bool", "bytes", "decimal.Decimal", "datetime.datetime", "datetime.date", "uuid.UUID",
@@ -75,11 +81,13 @@ LEAVES = ["int", "str", "float", "bool", "bytes", "decimal.Decimal", "datetime.d
           "typing.List", "typing.Dict", "typing.Tuple", "typing.Set", "typing.Sequence", "typing.Mapping", "T", "TB", "TC",
           "typing.Callable", "typing.Callable[..., int]", "typing.Callable[[int], str]", "collections.abc.Callable[[int], str]",
           "type", "type[int]", "typing.Type[DC]", "G", "G[int]", "NoHints", "NoHintsInit", "DC", "E", "NT", "TD",
-          "typing.Literal[1, 'a']", "typing.Iterable", "collections.deque"]
+          "typing.Literal[1, 'a']", "typing.Iterable", "collections.deque", "AL_NoHints", "AL_listAny", "AL_Lit", "TBN", "NT_NoHints",
+          "list[Any]"]
 EXTENDED = {"Any", "object", "list", "dict", "tuple", "set", "frozenset", "typing.List", "typing.Dict", "typing.Tuple",
             "typing.Set", "typing.Sequence", "typing.Mapping", "T", "TB", "TC", "typing.Callable", "typing.Callable[..., int]",
             "typing.Callable[[int], str]", "collections.abc.Callable[[int], str]", "type", "type[int]", "typing.Type[DC]", "G",
-            "G[int]", "NoHints", "NoHintsInit", "typing.Iterable", "collections.deque"}
+            "G[int]", "NoHints", "NoHintsInit", "typing.Iterable", "collections.deque", "AL_NoHints", "AL_listAny", "AL_Lit", "TBN",
+            "NT_NoHints", "list[Any]"}
 PASSTHROUGH = {"Any", "object", "T", "typing.Callable", "typing.Callable[..., int]", "typing.Callable[[int], str]",
                "collections.abc.Callable[[int], str]"}
 UNARY = {
@@ -89,7 +97,8 @@ UNARY = {
     "ClassVar": "typing.ClassVar[{0}]", "tuple1": "tuple[{0}]", "G": "G[{0}]", "Iterable": "typing.Iterable[{0}]",
     "newtype": "NEWTYPE({0})", "field": "FIELD({0})",
 }
-BINARY = {"tuple2": "tuple[{0}, {1}]", "Union": "typing.Union[{0}, {1}]", "dict": "dict[{0}, {1}]", "pipe": "({0}) | ({1})"}
+BINARY = {"tuple2": "tuple[{0}, {1}]", "Union": "typing.Union[{0}, {1}]", "dict": "dict[{0}, {1}]", "pipe": "({0}) | ({1})",
+          "fields2": "FIELD2({0}, {1})"}
 
 _NS = None
 _counter = itertools.count()
@@ -120,7 +129,14 @@ def build(expr):
         n[name] = cls
         return cls
 
-    local.update(NEWTYPE=NEWTYPE, FIELD=FIELD)
+    def FIELD2(a, b):
+        name = f"Holder{next(_counter)}"
+        cls = types.new_class(name, (), {}, lambda d: d.update({"__annotations__": {"x": a, "y": b}, "__module__": MOD,
+                                                                  "__init__": _holder_init, "__eq__": _holder_eq}))
+        n[name] = cls
+        return cls
+
+    local.update(NEWTYPE=NEWTYPE, FIELD=FIELD, FIELD2=FIELD2)
     return eval(expr, local)  # noqa: S307
 
 
@@ -188,6 +204,9 @@ def check_annotation(expr, col, passthrough=None, nontrivial=False, source="exha
     if failed:
         return
     b1 = battery(T)
+    rec = [x for x in b1 if isinstance(x[2], tuple) and x[2][0] == "exc" and x[2][1].endswith("RecursionError")]
+    if rec:
+        col.violation("no-unbounded-recursion", case, f"{expr}: {rec[0][0]}({rec[0][1]}) raised RecursionError", bucket=rec[0][0])
     b2 = battery(T)  # cache hit
     tl.clear_all()
     b3 = battery(T)
